@@ -102,6 +102,15 @@ class P(flow.Plan):
         return {"act": e["act"], "w": e["w"], "out": e["out"], "data": bytes(e["data"]).decode("utf-8", "replace"),
                 "obs_len": [len(x) for x in e["obs"]], "nreg": e["nreg"], "kinds": trace["meta"]["kinds"]}
 
+    def post(self, traces, inputs):
+        """Beyond C14: which writers and which formatter a configuration turns into (ConfigWiring.tla, every configuration)."""
+        from . import check_config
+        cw = check_config.run()
+        if cw["mismatches"]:
+            flow.say("NOTE configuration wiring (beyond the listed properties): %d of %d constructions differ from ConfigWiring (first: %s)"
+                     % (cw["mismatches"], cw["constructions"], str(cw["first_mismatches"][0])[:300]))
+        return {"config_wiring": cw}
+
     def controls(self, base):
         kinds = ["path", "binary", "custom"]
         descs = [{"act": "add", "w": 1}, {"act": "add", "w": 2}, {"act": "add", "w": 3},
